@@ -83,7 +83,8 @@ func (x *Explorer) Explore() {
 		return
 	}
 	x.Sample = a.TraceStrings(60)
-	x.explore(nil, 0)
+	// the second default execution doubles as the root of the search
+	x.exploreExec(b, nil, 0)
 }
 
 func diffExec(a, b *Exec) string {
@@ -151,11 +152,15 @@ func (x *Explorer) capped() bool {
 	return false
 }
 
-func (x *Explorer) explore(prefix []int, depth int) {
+func (x *Explorer) explore(prefix []int, depth int) { x.exploreExec(nil, prefix, depth) }
+
+func (x *Explorer) exploreExec(e *Exec, prefix []int, depth int) {
 	if x.capped() {
 		return
 	}
-	e := Run(prefix, &x.Cfg, x.Body)
+	if e == nil {
+		e = Run(prefix, &x.Cfg, x.Body)
+	}
 	if depth != 1 || x.NShards == 1 || true {
 		x.Execs++
 		x.Transitions += int64(len(e.Points))
